@@ -266,7 +266,7 @@ package drpcwire
 //@   ensures [C01.noalias] err == nil ==> arr(pkt.Data) == 0 || (arr(pkt.Data) != arr(r.buf) && arr(pkt.Data) != arr(r.curr))
 //@   ensures [deliver]     err == nil ==> pkt.ID.Stream == r.id.Stream && pkt.ID.Message + 1 == r.id.Message
 //@   ensures [deliver-geq] err == nil ==> idLeq(old(r.id), pkt.ID) && len(pkt.Data) <= max0(rdM(r))
-//@   ensures [C09.id-monotone] idLeq(old(r.id), r.id)
+//@   check   [C09.id-monotone] idLeq(old(r.id), r.id)
 //@   ensures [err-empty]   err != nil ==> len(pkt.Data) == 0 && idZero(pkt.ID)
 
 // ---- Writer: mu protects buf; empty is published atomically (1 iff bytes are pending).
@@ -321,3 +321,24 @@ package drpcwire
 //@ func (*Writer).WritePacket
 //@   props C07 C18
 //@   requires b.w != nil
+
+// ---- error packets: 8 bytes big-endian code, then the error text
+
+//@ func MarshalError
+//@   props C10 C13
+//@   requires err != nil
+//@   ensures [len]  len(result) == 8 + len(methodStr(err, "Error"))
+//@   ensures [code] be64(result) == fn_Code(err)
+//@   ensures [text] forall i int :: 0 <= i && i < len(methodStr(err, "Error")) ==> result[8 + i] == methodStr(err, "Error")[i]
+
+// UnmarshalError never fails: short data yields an error without code; otherwise the code is the
+// first 8 bytes (big endian) and the text the rest.
+//@ func UnmarshalError
+//@   props C10 C13
+//@   ensures [nonnil] result != nil
+//@   ensures [code]   len(data) >= 8 ==> chainCode(result) == be64(data)
+//@   ensures [short]  len(data) < 8 ==> chainCode(result) == 0
+
+// Set once by NewWriter, never assigned again (checked by a scan of every function of the package).
+//@ immutable Writer.w
+//@   props C07 C10 C03 C12 C05
